@@ -8,6 +8,8 @@ import (
 	"bytes"
 	"encoding/binary"
 	"fmt"
+	"github.com/mandykoh/prism/ciexyy"
+	"github.com/mandykoh/prism/ciexyz"
 	"image/color"
 	"math"
 	"os"
@@ -194,7 +196,48 @@ func firstCallRound() []uint32 {
 	return out
 }
 
+// the generic helpers called with arguments related to the built-in spaces before those spaces are first used
+// (a space's primaries with another white point, the reverse of an adaptation): whatever a helper remembers
+// must not leak into what the spaces compute afterwards
+func firstCallsPrelude(s xyzSpace) {
+	w := ciexyy.D50
+	if s.w == ciexyy.D50 {
+		w = ciexyy.D65
+	}
+	ciexyz.TransformFromXYZForXYYPrimaries(s.r, s.g, s.b, w)
+	ciexyz.TransformToXYZForXYYPrimaries(s.r, s.g, s.b, w)
+}
+
+// the 18 effective coefficients of every space and one adaptation, as bit patterns; with prelude, each space is
+// probed right after the helpers were called with its own primaries and another white point
+func firstCallMatrices(prelude bool) []uint32 {
+	var out []uint32
+	for _, s := range xyzSpaces {
+		if prelude {
+			firstCallsPrelude(s)
+		}
+		to, from := probeSpace(s)
+		for _, v := range to {
+			out = append(out, math.Float32bits(v))
+		}
+		for _, v := range from {
+			out = append(out, math.Float32bits(v))
+		}
+	}
+	if prelude {
+		ciexyz.AdaptBetweenXYYWhitePoints(ciexyy.D65, ciexyy.D50)
+		ciexyz.AdaptBetweenXYZWhitePoints(ciexyz.D65, ciexyz.D50)
+	}
+	ad := ciexyz.AdaptBetweenXYYWhitePoints(ciexyy.D50, ciexyy.D65)
+	for _, px := range []ciexyz.Color{{X: 1, Y: 0, Z: 0}, {X: 0, Y: 1, Z: 0}, {X: 0, Y: 0, Z: 1}} {
+		o := ad.Apply(px)
+		out = append(out, math.Float32bits(o.X), math.Float32bits(o.Y), math.Float32bits(o.Z))
+	}
+	return out
+}
+
 func firstCallsMain() {
+	mats := firstCallMatrices(true)
 	first := firstCallRound()
 	for _, s := range spaces[:3] {
 		for i := 0; i < 70000; i++ {
@@ -208,6 +251,7 @@ func firstCallsMain() {
 	var buf bytes.Buffer
 	binary.Write(&buf, binary.LittleEndian, first)
 	binary.Write(&buf, binary.LittleEndian, second)
+	binary.Write(&buf, binary.LittleEndian, mats)
 	os.Stdout.Write(buf.Bytes())
 }
 
@@ -219,6 +263,23 @@ func firstCallsCheck(c *ctx, prop string) {
 	own := firstCallRound()
 	out, err := exec.Command(os.Args[0], "firstcalls").Output()
 	c.res.count("first-calls", prop, true)
+	ownMats := firstCallMatrices(false)
+	if err == nil && len(out) == 8*len(own)+4*len(ownMats) {
+		theirs := make([]uint32, len(ownMats))
+		binary.Read(bytes.NewReader(out[8*len(own):]), binary.LittleEndian, theirs)
+		for i := range ownMats {
+			if theirs[i] != ownMats[i] {
+				what := "the adaptation D50->D65"
+				if i < 18*len(xyzSpaces) {
+					what = "space " + xyzSpaces[i/18].name
+				}
+				c.res.fail(Failure{Class: prop + ":first-calls:matrices", Desc: fmt.Sprintf("coefficient %d of %s, probed in a fresh process right after the generic helpers were called with that space's primaries and another white point (and the reverse adaptation), differs from the one probed here", i%18, what),
+					Input: map[string]interface{}{"history": "TransformToXYZForXYYPrimaries(space primaries, other white), AdaptBetween...(D65, D50), then the first use of the space", "coefficient": i}, Got: fmt.Sprintf("%#x", theirs[i]), Want: fmt.Sprintf("%#x", ownMats[i])})
+				break
+			}
+		}
+		out = out[:8*len(own)]
+	}
 	if err != nil || len(out) != 8*len(own) {
 		c.res.fail(Failure{Class: prop + ":first-calls:process", Desc: "the fresh process making its first encoder/decoder calls failed", Got: fmt.Sprint(err, len(out)), Want: fmt.Sprint(8*len(own), " bytes")})
 		return
